@@ -112,6 +112,32 @@ def run(ck):
     ck.floor("BITMAP", "presence-bit tests", npb, 12)
     ck.floor("BITMAP", "optional-field bitmaps", nb, 3)
 
+    # ---- exact consumption of a declared length: `read`, `read_to_end`, `read_to_string` (also behind `take(l)`) deliver UP TO
+    # the requested amount; their count must be compared with the declared length (the repo's idiom: UpdateInstruction).
+    # `read_exact` needs no such test
+    nsr = 0
+    for p0 in sorted(c.paths()):
+        if re.search(r"::tests?::|::test_", p0):
+            continue
+        for b in c.get_all(p0):
+            f = Fn(b)
+            for (bi, t) in f.calls(r"(^|::)Read::(read|read_to_end|read_to_string)$"):
+                nsr += 1
+                fw = f.forward({t["dest"][0]})
+                ok = False
+                for cx in rules.comparisons(f):
+                    if cx["kind"] != "bin":
+                        continue
+                    la, lb = (op_place(cx["a"]) or [None])[0], (op_place(cx["b"]) or [None])[0]
+                    if la in fw or lb in fw:
+                        rel, d = rules.cmp_rejects(f, cx)
+                        if rel in ("Ne", "Lt", "Gt"):
+                            ok = True
+                ck.ob("CMP", f.path, "short-read-count-checked@%s" % t["f"]["path"].split("::")[-1], ok,
+                      "the number of bytes delivered is compared with the declared length and a difference refuses" if ok else
+                      "`%s` may deliver fewer bytes than declared and its count is never compared with the declared length: a truncated input decodes to a shorter value" % t["f"]["path"].split("::")[-1], f.loc(bi))
+    ck.floor("CMP", "short-read primitives in decoders", nsr, 1)
+
     # ---- buffers a decoder allocates are filled from the input
     zfns = [Fn(b) for p0 in sorted(c.paths()) if re.search(r"[Dd]eserial|::read_|::get_|from_bytes|parse", p0) for b in c.get_all(p0)]
     zero_buffer_sweep(ck, zfns, "DEFUSE", 25)
